@@ -155,4 +155,20 @@ example :
     run ⟨10, 2⟩ 8192 ((List.replicate 16 (.add 264)) ++ (List.replicate 16 (.remove 264))) = some (⟨10, 2⟩, 8192) := by
   decide +kernel
 
+/-- **copies of the PVD do not change what the path tables cost**: with `k ≥ 1` identical copies, the bytes charged for a
+new record are those charged for a single descriptor -/
+theorem addAll_independent_of_copies (s : PT) (k n : Nat) (hk : 1 ≤ k) :
+    (addAll (List.replicate k s) n).2 = (if (add s n).2 then 4 * 2048 else 0) ∧
+    (addAll (List.replicate k s) n).1 = List.replicate k (add s n).1 := by
+  obtain ⟨k', rfl⟩ : ∃ k', k = k' + 1 := ⟨k - 1, by omega⟩
+  simp only [addAll, List.map_replicate, List.any_replicate]
+  constructor
+  · cases (add s n).2 <;> simp
+  · trivial
+
+/-- the witness of the repaired defect: with two copies the old accounting charged eight extents for one growth step -/
+theorem old_accounting_charges_per_copy :
+    (addAllOld (List.replicate 2 ⟨4090, 2⟩) 10).2 = 2 * (4 * 2048) ∧ (addAll (List.replicate 2 ⟨4090, 2⟩) 10).2 = 4 * 2048 := by
+  decide
+
 end Pycdlib.PathTable
